@@ -96,6 +96,14 @@ def _simplify_values(case):
             pass
 
 
+def _drop_extras(case):
+    for k in ("pair", "followup"):
+        if case.get(k):
+            c = copy.deepcopy(case)
+            del c[k]
+            yield c
+
+
 def _simplify_config(case):
     cfg = case.get("dask_config") or {}
     for k in list(cfg):
@@ -133,6 +141,9 @@ def minimise(case, sched, fails, cls, simplify_params=None, budget=None):
     s = dict(base, policy="dfs", policy_arg=None)
     if attempt(case, s, "schedule -> dfs (schedule irrelevant)"):
         base = s
+    for c in _drop_extras(case):
+        if attempt(c, base, "drop pair / follow-up call"):
+            case = c
     # 3. dask config
     changed = True
     while changed and budget.left():
